@@ -674,8 +674,15 @@ pub fn run(ctx: &Ctx) -> (Acc, Report) {
     let winputs = strings_upto(&['€', '😀', 'é'], 3, 0);
     matcher_space(&mut acc, "wide", &wpats, &winputs);
 
+    // inputs that themselves contain the characters '*' and '?' (ordinary characters there: an object key may be "*a.txt")
+    let (mlp, mli) = ctx.tier.pick((5, 6), (6, 7));
+    let mpats = strings_upto(&['a', '*', '?'], mlp, 1);
+    let minputs = strings_upto(&['a', '*', '?'], mli, 0);
+    matcher_space(&mut acc, "wildcard-characters-in-the-input", &mpats, &minputs);
+
     let spats = strings_upto(&['a', 'b', '*', '?'], ctx.tier.pick(2, 3), 1);
-    let sinputs = strings_upto(&['a', 'b'], ctx.tier.pick(4, 5), 0);
+    let mut sinputs = strings_upto(&['a', 'b'], ctx.tier.pick(4, 5), 0);
+    sinputs.extend(strings_upto(&['a', '*', '?'], 3, 1).into_iter().filter(|s| s.contains(['*', '?'])));
     set_space(&mut acc, &spats, &sinputs);
     empty_patterns(&mut acc);
 
@@ -729,7 +736,7 @@ pub fn run(ctx: &Ctx) -> (Acc, Report) {
     let rep = Report {
         level: "exploration",
         rule: format!(
-            "exhaustive enumeration: all patterns of length 1..{lp} over {{a,b,*,?}} x all inputs of length 0..{li} over {{a,b}}; all patterns <= {ulp} over {{a,é,*,?}} x inputs <= {uli} over {{a,é}}; patterns <= 3 over {{€,😀,*,?}} x inputs <= 3 over {{€,😀,é}}; all ordered pattern pairs; empty-pattern sets; product of policy shapes ({n_st} statements x version x id x One/More); every single structural JSON mutation of 3 base documents. A matcher case is non-trivial if the pattern has a wildcard or the reference says match; distinct by (pattern,input) hash. Oracle: DP matcher over chars; decode(encode(p))==p; re-encoded JSON == input modulo null members; grammar validator for the shapes the statement names.",
+            "exhaustive enumeration: all patterns of length 1..{lp} over {{a,b,*,?}} x all inputs of length 0..{li} over {{a,b}}; all patterns <= {ulp} over {{a,é,*,?}} x inputs <= {uli} over {{a,é}}; patterns <= 3 over {{€,😀,*,?}} x inputs <= 3 over {{€,😀,é}}; patterns <= {mlp} over {{a,*,?}} x inputs <= {mli} over {{a,*,?}} (the wildcard characters as ordinary characters of the input); all ordered pattern pairs; empty-pattern sets; product of policy shapes ({n_st} statements x version x id x One/More); every single structural JSON mutation of 3 base documents. A matcher case is non-trivial if the pattern has a wildcard or the reference says match; distinct by (pattern,input) hash. Oracle: DP matcher over chars; decode(encode(p))==p; re-encoded JSON == input modulo null members; grammar validator for the shapes the statement names.",
         ),
         exhaustive: true,
         extra: json!({"patterns_ascii": pats.len(), "inputs_ascii": inputs.len(), "statements": n_st,
